@@ -282,7 +282,7 @@ func init() {
 		if r.Chance(0.25) {
 			cfg.TruncateDiff = uint64(2 + r.Intn(8))
 		}
-		cfg.StreamFaultKind = []string{"none", "none", "none", "dup-vertex", "dup-trx", "unknown-parent", "second-self-sealed", "empty-trx", "cut"}[r.Intn(9)]
+		cfg.StreamFaultKind = []string{"none", "none", "none", "dup-vertex", "dup-trx", "unknown-parent", "second-self-sealed", "empty-trx", "cut", "unknown-right-parent", "unknown-left-parent"}[r.Intn(11)]
 		if r.Chance(0.3) {
 			cfg.PreemptP = []float64{0.02, 0.1}[r.Intn(2)]
 			cfg.Spread = 1 + r.Intn(3)
